@@ -103,6 +103,19 @@ def must_refuse_edits(cfg, iso, shadow):
     if lvl >= 2:
         yield 'identifier-does-not-fit-record', (lambda: iso.add_fp(fp(), 5, iso_path='/' + 'N' * 220 + '.' + 'E' * 30 + ';1', **rr))
     if cfg.rr:
+        def dup_in_rr_moved(kind):
+            # a directory called RR_MOVED is no exception to "no two entries with one identifier"
+            if not any(d == '/RR_MOVED' for d in dirs['iso']):
+                iso.add_directory(iso_path='/RR_MOVED', rr_name='rr_moved')
+                dirs['iso'].append('/RR_MOVED')
+            if kind == 'dir':
+                iso.add_directory(iso_path='/RR_MOVED/DUPD', rr_name='one')
+                iso.add_directory(iso_path='/RR_MOVED/DUPD', rr_name='two')
+            else:
+                iso.add_fp(fp(), 5, iso_path='/RR_MOVED/DUPF.;1', rr_name='one')
+                iso.add_fp(fp(), 5, iso_path='/RR_MOVED/DUPF.;1', rr_name='two')
+        yield 'dup-under-rr-moved:dir', (lambda: dup_in_rr_moved('dir'))
+        yield 'dup-under-rr-moved:file', (lambda: dup_in_rr_moved('file'))
         # Rock Ridge entries that need more than one continuation block cannot be recorded
         fresh = '/RRTOOBIG.;1'
         yield 'rr-entries-exceed-continuation-block', (lambda: iso.add_fp(fp(), 5, iso_path=fresh, rr_name='n' * 3000))
